@@ -247,14 +247,16 @@ pub fn check_output(inv: &Invocation, stdout: &str, ex: &Expect) -> Result<(), S
         let _header = p.header.as_ref().ok_or("no table printed under -t")?;
         if inv.has("-m") {
             // the printed function is a model: a cube inside f, non-empty iff f satisfiable
+            // (which False rows accompany the model is not prescribed: C10 does not speak of -m,
+            // C07 only of the satisfying row; only rows excluded by the filter are judged)
             let (g, cov) = printed_function(&p, k)?;
-            let want_cov = match filter {
-                'a' => TT::konst(k, true),
-                't' => g.clone(),
-                _ => cov.clone(),
+            let bad = match filter {
+                't' => cov != g,
+                'f' => !g.is_false(),
+                _ => false,
             };
-            if cov != want_cov {
-                return Err("rows under -m do not cover what the filter asks for".into());
+            if bad {
+                return Err("rows under -m include rows the filter excludes".into());
             }
             if filter != 'f' {
                 if g.is_false() != ex.table.is_false() {
